@@ -114,6 +114,11 @@ def spell(base, link, target, sp):
 
 def materialise(model, base, order_seed, time_seed):
     os.makedirs(base)
+    # siblings whose names start with the name of the scanned directory
+    for sib in ("_old", "2"):
+        os.makedirs(base + sib, exist_ok=True)
+        with open(os.path.join(base + sib, "secret"), "wb") as f:
+            f.write(b"outside")
     paths = sorted(model)
     random.Random(order_seed).shuffle(paths)
     for p in paths:
@@ -128,7 +133,7 @@ def materialise(model, base, order_seed, time_seed):
         elif e["t"] == "l":
             os.symlink(e["raw"] if e.get("sp") == "raw" else spell(base, p, e["to"].strip("/"), e.get("sp", "rel")), full)
         elif e["t"] == "x":
-            os.symlink(e["to"], full)
+            os.symlink(e["to"].replace("/@SIBLING@", base + "_old"), full)
     r = random.Random(time_seed)
     for p in sorted(model):
         t = r.randrange(10**9, 2 * 10**9)
@@ -251,12 +256,13 @@ class DirscanEngine:
                     to = (g.choice(dirs) + "/missing" + str(g.randrange(3))).strip("/")
                 e = {"p": p, "t": "l", "to": to, "sp": g.choice(["rel", "dotdot", "abs", "dot"])}
             else:
-                e = {"p": p, "t": "x", "to": g.choice(["/etc/hostname", "/etc", "../outside_file", "/nonexistent/zz"])}
+                up = "../" * (p.count("/") + 1)
+                e = {"p": p, "t": "x", "to": g.choice(["/etc/hostname", "/etc", "../outside_file", "/nonexistent/zz", up + "root_old/secret", up + "root2", "/@SIBLING@/secret", up + "rootx/missing"])}
             ops.append(e)
         edit = None
         if g.random() < 0.6:
             edit = {"kind": g.choice(["flip", "rename", "add", "remove", "file_to_dir", "file_to_link_equal", "retarget_equal", "retarget"]), "i": g.randrange(50)}
-        cfg = {"order": [g.randrange(10**6), g.randrange(10**6)], "times": [g.randrange(10**6), g.randrange(10**6)], "reads": g.randrange(10**6), "perm": g.randrange(10**6), "edit": edit, "alg": g.choice(["sha256", "sha256", "sha512"])}
+        cfg = {"order": [g.randrange(10**6), g.randrange(10**6)], "times": [g.randrange(10**6), g.randrange(10**6)], "reads": g.randrange(10**6), "perm": g.randrange(10**6), "edit": edit, "inplace": g.random() < 0.6, "alg": g.choice(["sha256", "sha256", "sha512"])}
         return {"engine": self.name, "prop": prop, "tag": tag, "cfg": cfg, "ops": ops}
 
     def scan(self, base, cfg, stats, which):
@@ -318,6 +324,16 @@ class DirscanEngine:
             if got[1] != exp[1]:
                 viol.append({"prop": "C19", "oracle": "tree-differs-from-model", "detail": f"hashsum tree differs from the model: {self.diff(exp[1], got[1])}", "shape": self.shape(exp[1], got[1], m)})
                 break
+        if not viol and cfg.get("inplace") and eB[0] == "tree" and results[0][0] == "tree":
+            # the same directory is edited in place and scanned again (packer update):
+            # where content changes keep the size, the old timestamps are restored
+            base = os.path.join(scratch, "tree0", "root")
+            n_same = self.edit_in_place(base, mA, mB, cfg)
+            stats["inplace_rescan"] = stats.get("inplace_rescan", 0) + 1
+            stats["inplace_same_size_and_mtime"] = stats.get("inplace_same_size_and_mtime", 0) + n_same
+            got = self.scan(base, cfg, stats, 2)
+            if got[0] != "tree" or got[1] != eB[1]:
+                viol.append({"prop": "C19", "oracle": "rescan-after-edit", "detail": f"directory edited in place ({json.dumps(cfg.get('edit'))}, timestamps kept) and scanned again: {'raised' if got[0] != 'tree' else self.diff(eB[1], got[1])}", "shape": (cfg.get("edit") or {}).get("kind", "same")})
         if not viol and len(results) == 2 and results[0][0] == "tree" and results[1][0] == "tree":
             same_model = eA == eB
             same_tree = results[0][1] == results[1][1]
@@ -327,6 +343,45 @@ class DirscanEngine:
         sig = hashlib.sha256(json.dumps([sorted((p, e["t"], e.get("to"), e.get("len")) for p, e in mA.items()), cfg.get("edit")]).encode()).hexdigest()[:16]
         nontrivial = len(mA) >= 3 and any(e["t"] == "l" or "/" in p for p, e in mA.items())
         return {"violations": viol, "faults": stats, "probes": probes, "steps": len(mA) + len(mB), "log_digest": hashlib.sha256(json.dumps([[r[0], r[1] if r[0] == "tree" else None] for r in results], sort_keys=True, default=str).encode()).hexdigest()[:16], "sig": sig, "nontrivial": nontrivial}
+
+    def edit_in_place(self, base, mA, mB, cfg):
+        """Turn the materialised tree of model A into model B in place; returns how many
+        files changed content with size and mtime preserved."""
+        same = 0
+        for p in sorted(mA, reverse=True):
+            if p not in mB or mA[p]["t"] != mB[p]["t"] or (mA[p]["t"] in ("l", "x") and mA[p] != mB[p]):
+                full = os.path.join(base, p)
+                if os.path.islink(full) or os.path.isfile(full):
+                    os.unlink(full)
+                elif os.path.isdir(full):
+                    shutil.rmtree(full)
+        for p in sorted(mB):
+            e = mB[p]
+            full = os.path.join(base, p)
+            if e["t"] == "d":
+                os.makedirs(full, exist_ok=True)
+            elif e["t"] == "f":
+                new = content(e)
+                if os.path.isfile(full) and not os.path.islink(full):
+                    old = open(full, "rb").read()
+                    if old != new:
+                        st = os.stat(full)
+                        with open(full, "wb") as f:
+                            f.write(new)
+                        if len(old) == len(new):
+                            os.utime(full, ns=(st.st_atime_ns, st.st_mtime_ns))
+                            same += 1
+                else:
+                    os.makedirs(os.path.dirname(full), exist_ok=True)
+                    with open(full, "wb") as f:
+                        f.write(new)
+            elif e["t"] == "l" and not os.path.islink(full):
+                os.makedirs(os.path.dirname(full), exist_ok=True)
+                os.symlink(e["raw"] if e.get("sp") == "raw" else spell(base, p, e["to"].strip("/"), e.get("sp", "rel")), full)
+            elif e["t"] == "x" and not os.path.islink(full):
+                os.makedirs(os.path.dirname(full), exist_ok=True)
+                os.symlink(e["to"].replace("/@SIBLING@", base + "_old"), full)
+        return same
 
     @staticmethod
     def diff(a, b, pre=""):
